@@ -233,7 +233,7 @@ def _run(ctx, base):
                 want = None
             # the output file may exist already: the same text with the other line ends (an earlier run with another --newlinechar),
             # the wanted text itself, something else, or the input file itself (formatting in place)
-            pre = r.choice(["absent", "absent", "other-line-ends", "identical", "garbage", "in-place"])
+            pre = r.choice(["absent", "other-line-ends", "other-line-ends", "identical", "garbage", "in-place"])
             if want is not None and pre != "absent":
                 res.count("format_into_existing_output")
                 res.seen("existing-output-kinds", pre)
